@@ -147,6 +147,32 @@ def cases(rng, tier, stats):
             out.append(prog_case("join-element-kinds", [("print", G.s("আগে"))] + prog + [("print", G.s("পরে"))], info={"elements": ln, "route": route}))
             nj += 1
     stats["join_element_kinds"] = nj
+    # `_টাইপ` names the type of the value its argument DENOTES there: a variable bound in several live scopes to values of different
+    # types (parameter over global, block local over outer, the same function re-entered with another kind of argument)
+    vals = {"num": G.num(5), "str": G.s("লেখা"), "list": G.lst(G.num(1)), "bool": G.b(True), "rec": G.rec((G.s("k"), G.num(1)))}
+    ns = 0
+    for outer in vals:
+        for inner in vals:
+            if outer == inner:
+                continue
+            prog = [("decl", "x", vals[outer]),
+                    ("func", "ধরন", ["x"], [("print", G.call("_টাইপ", G.var("x"))), ("block", [("decl", "x", G.lst()), ("print", G.call("_টাইপ", G.var("x")))]),
+                                            ("return", G.call("_টাইপ", G.var("x")))]),
+                    ("print", G.call("_টাইপ", G.var("x"))), ("print", G.call("ধরন", vals[inner])),
+                    ("block", [("decl", "x", vals[inner]), ("print", G.call("_টাইপ", G.var("x"))), ("print", G.call("ধরন", G.var("x")))]),
+                    ("print", G.call("_টাইপ", G.var("x")))]
+            out.append(prog_case("type-of-shadowed", prog, info={"outer": outer, "inner": inner}))
+            ns += 1
+    walker = [("func", "হাঁট", ["v"], [("if", [(G.bin_("==", G.call("_টাইপ", G.var("v")), G.call("_টাইপ", G.lst())),
+                                              [("decl", "i", G.num(0)), ("decl", "ফল", G.s("[")),
+                                               ("loop", [("if", [(G.bin_(">=", G.var("i"), G.call("_লিস্ট-লেন", G.var("v"))), [("break",)])], None),
+                                                         ("assign", "ফল", [], G.bin_("+", G.bin_("+", G.var("ফল"), G.call("হাঁট", G.idx(G.var("v"), G.var("i")))), G.s(";"))),
+                                                         ("assign", "i", [], G.bin_("+", G.var("i"), G.num(1)))]),
+                                               ("return", G.bin_("+", G.var("ফল"), G.s("]")))])], None),
+                                       ("return", G.call("_টাইপ", G.var("v")))]),
+              ("print", G.call("হাঁট", G.lst(G.num(1), G.s("দুই"), G.lst(G.num(3), G.lst(G.b(True))), G.rec((G.s("k"), G.num(1))))))]
+    out.append(prog_case("type-of-shadowed", walker, info={"outer": "walker", "inner": "walker"}))
+    stats["type_of_shadowed"] = ns + 1
     # every argument tuple of length 0..3 over one value of each kind: exactly the documented shapes are accepted
     pool = [G.s("a,b"), G.s(","), G.num(2), G.lst(G.s("a"), G.s("b")), G.b(True), G.rec((G.s("k"), G.num(1)))]
     nt = 0
